@@ -29,4 +29,8 @@ R_FlusherOps == [f1 |-> "flushInf"]
 \* retry budget is per batch: two items, enough faults to exhaust one batch and fail the next
 R2_SenderOps == [s1 |-> <<"send", "send">>]
 R2_FlusherOps == <<>>
+\* refinement: Batcher implements the distilled queue discipline BatcherCore (for which TLAPS
+\* proves []Bounded for every capacity and item set)
+Core == INSTANCE BatcherCore WITH Elem <- Items
+CoreSpec == Core!Spec
 =============================================================================
